@@ -8,6 +8,6 @@ MCPrograms == << [n |-> 5, commits |-> <<5>>, writes |-> <<1>>],                
                  [n |-> 4, commits |-> <<>>, writes |-> <<>>],                   \* its dry run
                  [n |-> 9, commits |-> <<3, 6, 9>>, writes |-> <<1, 1, 1>>],     \* a sequential bulk of three elements
                  [n |-> 9, commits |-> <<9>>, writes |-> <<3>>] >>               \* an atomic bulk of three elements
-MCErrKinds == {"08006", "40001", "57014", "cancel", "40P01"}
+MCErrKinds == {"08006", "40001", "57014", "cancel", "txdone", "40P01"}
 MCRetryable == {"40P01"}
 =============================================================================
